@@ -26,6 +26,7 @@ type jLookup struct {
 	Ty      int    `json:"ty,omitempty"`
 	NParams int    `json:"nparams,omitempty"`
 	Results []int  `json:"results,omitempty"`
+	NeedsAddr bool `json:"needsAddr,omitempty"`
 }
 
 type jField struct {
@@ -37,6 +38,7 @@ type jMethodInfo struct {
 	Name    string `json:"name"`
 	NParams int    `json:"nparams"`
 	Results []int  `json:"results"`
+	PtrRecv bool   `json:"ptrRecv,omitempty"`
 }
 
 type jTy struct {
@@ -509,6 +511,9 @@ func ExtractFacts(srcPath, dstPath, rel string) (*Facts, error) {
 				m := x.Method(i)
 				sig := m.Type().(*types.Signature)
 				mi := jMethodInfo{Name: m.Name(), NParams: sig.Params().Len(), Results: []int{}}
+				if recv := sig.Recv(); recv != nil {
+					_, mi.PtrRecv = recv.Type().(*types.Pointer)
+				}
 				for k := 0; k < sig.Results().Len(); k++ {
 					mi.Results = append(mi.Results, u.id(sig.Results().At(k).Type()))
 				}
@@ -565,7 +570,11 @@ func ExtractFacts(srcPath, dstPath, rel string) (*Facts, error) {
 				if obj == nil {
 					continue
 				}
-				f.Lookups = append(f.Lookups, jLookupE{Ty: lookupsDone, Name: name, Res: lookupRes(obj)})
+				res := lookupRes(obj)
+				if o2, _, _ := types.LookupFieldOrMethod(t, false, pkgOf(t), name); o2 == nil {
+					res.NeedsAddr = true
+				}
+				f.Lookups = append(f.Lookups, jLookupE{Ty: lookupsDone, Name: name, Res: res})
 			}
 		}
 		if done == len(u.types) {
